@@ -446,7 +446,7 @@ def keyword_words(dialect):
         if m:
             out.append((name, m.group(1)))
             continue
-        m = re.fullmatch(r'\\b([A-Za-z]+)(?:\[_\|\\s\]|\[\\s\]\+| )([A-Za-z]+)\\b', p)
+        m = re.fullmatch(r'\\b([A-Za-z]+)(?:\[_\|?\\s\]|\[\\s\]\+| )([A-Za-z]+)\\b', p)
         if m:
             for w in (m.group(1) + '_' + m.group(2), m.group(1) + ' ' + m.group(2)):
                 if rx.fullmatch(w):
